@@ -82,10 +82,17 @@ func genC04() *rapid.Generator[prog.Program] {
 		SyncWeight: 8, OfflineBias: true, Snapshots: true,
 	})
 	return rapid.Custom(func(t *rapid.T) prog.Program {
+		var p prog.Program
 		if rapid.IntRange(0, 3).Draw(t, "snap") == 0 {
-			return snap.Draw(t, "p")
+			p = snap.Draw(t, "p")
+		} else {
+			p = change.Draw(t, "p")
 		}
-		return change.Draw(t, "p")
+		// a quarter of the cases: the document is created presenceless by the
+		// first attacher while the others attach plainly and keep sending
+		// presence (their presence-only changes are stripped by the server)
+		p.Cfg.NoPresence = rapid.IntRange(0, 3).Draw(t, "nopresence") == 0
+		return p
 	})
 }
 
